@@ -27,6 +27,12 @@ STORES = {
 }
 
 PROPS = {
+    "C11": {
+        "tiers": tiers(2000, 60000, quick_budget=40),
+        "rule": "rapid-generated case: store configuration (MemoryStore streaming / paged; SQLite streaming unbatched, stream batch 1/2/3/7, paged; durable-streams paged with chunk default/64/256), WithReplayBatchSize unset/1/2/3/5/100, log length 0-40 (two thirds 0-12), start offset anywhere in the log, and one fault drawn jointly with its position: none, callback error at call k, context cancelled before the call, context cancelled by the callback at call k, store Read/stream-open failure at page p, stream row failure at row r, SQL driver failures underneath the SQLite store (rows.Next fails at row r, query fails, Rows.Close fails - through the verif hook), lost request / lost response on the j-th GET (durable-streams). Non-trivial: non-empty log; distinct = (scenario, history hash).",
+        "components": dict(REAL_BUS, **dict(STORES, **{"SQL driver": "real modernc driver wrapped by a fault-injecting database/sql driver installed through the tag-guarded hook stores/sqlite/verif_hooks.go"})),
+        "assumptions": COMMON_ASSUME + ["a cancellation that arrives after the last event was delivered may yield nil (the statement's two clauses disagree there; the weaker one is checked)"],
+    },
     "C20": {
         "tiers": tiers(2500, 80000, quick_budget=40),
         "rule": "rapid-generated workload: 0-5 registrations (plain/context-aware, sync/Async, Sequential, Once, filters; some panic on chosen invocations, some cancel the publish context), 1-2 publisher tasks x 1-4 publishes with absent / live / already-cancelled contexts, optional persistence through a fault-injecting decorator (k-th Append fails, or blocks until a 10 ms simulated persistence timeout), + choice tape; the bus is observed either by a token recorder (every start callback returns a context carrying a fresh token; every callback logs the tokens it sees) or by the real otel.Observability on an SDK TracerProvider with a synchronous SpanRecorder and a ManualReader. Faults = handler panics, context cancellations, append failures/timeouts. Every run is non-trivial; distinct = (scenario shape, schedule trace hash, history hash).",
